@@ -7,7 +7,7 @@ from ..common import Snapshot, eqstar, weighted
 
 PLAN = {
     "quick": {"shards": 8, "cases": 1500, "min_nontrivial": 6000, "budget_s": 300},
-    "thorough": {"shards": 16, "cases": 8000, "min_nontrivial": 60000, "budget_s": 1500},
+    "thorough": {"shards": 16, "cases": 30000, "min_nontrivial": 168000, "budget_s": 1500},
 }
 RULE = ("(A) pairs of plain trees with overlapping and disjoint keys at depth <= 4 and map/non-map conflicts: "
         "combine_trees(b, c) against an independent recursive merge (child wins, maps merge, one-sided keys kept), both "
